@@ -42,7 +42,11 @@ LEVEL_TEXT = ("Lean 4 theorems for all sizes and all operation histories: the he
               "The LOOPS of Mat*Vec, MatBase*Vec, TransMat*Vec, Vec*TransMat, TransVec*Mat, TransVec*MatBase and VecBase::dot are "
               "regenerated statement by statement from the headers (pointers walking the operands) and proved EQUAL to the executed "
               "closed-form models for all operands; their values are Matrix.mulVec / vecMul / dotProduct for all dimensions over "
-              "any semiring (Vec*TransMat: what the code computes, known finding). "
+              "any semiring (Vec*TransMat: what the code computes, known finding). Stores of SymMat objects (dim_, idf_, tol_, row_, col_ + "
+              "MemRep; in-place cholDec and invert) and of Vec objects (implicit moves) refine their value-level semantics for every "
+              "history (member lists and move/copy generation regenerated from the headers); histories that CONTINUE after a caught "
+              "BadRank/Singular refine the value-level semantics with the same catch rule: a dimension-guard throw leaves every object "
+              "unchanged, Singular out of Mat::invert leaves the half-eliminated block the model defines. "
               "Models tied to lib/matvec by a translator (guards) and differential correspondence (exact rational and IEEE double "
               "instances of the same definitions) and an always-on property oracle on the C++ answers.")
 LEVEL_NOTE = ("Trusted: Lean kernel, statements in Props/C15.lean, harness/generator/comparator. The operators whose faithful "
